@@ -331,6 +331,26 @@ void SubprocessSet::CheckConsoleProcessTerminated(SubprocessSet::WorkResult* wor
 SubprocessSet::~SubprocessSet() {
   Clear();
 
+  // An interrupted build ends with the interrupt status.  A further interrupt
+  // signal that arrived while the commands were being stopped (an impatient
+  // second Ctrl-C) adds nothing to that: left pending, it would be delivered
+  // with its default action once the mask is restored below, and ninja would
+  // die of the signal instead of exiting with the interrupt status.
+  if (interrupted_) {
+    sigset_t interrupts, pending;
+    sigemptyset(&interrupts);
+    sigaddset(&interrupts, SIGINT);
+    sigaddset(&interrupts, SIGTERM);
+    sigaddset(&interrupts, SIGHUP);
+    while (sigpending(&pending) == 0 &&
+           (sigismember(&pending, SIGINT) || sigismember(&pending, SIGTERM) ||
+            sigismember(&pending, SIGHUP))) {
+      int sig;
+      if (sigwait(&interrupts, &sig) != 0)
+        break;
+    }
+  }
+
   if (sigaction(SIGINT, &old_int_act_, 0) < 0)
     Fatal("sigaction: %s", strerror(errno));
   if (sigaction(SIGTERM, &old_term_act_, 0) < 0)
